@@ -27,7 +27,7 @@ type FuncResult struct {
 func genFunc(w *World, fi *FuncInfo, mode string) (res *FuncResult) {
 	th := newTheory(w.Externs)
 	fv := &FuncVC{w: w, fi: fi, th: th, info: fi.Pkg.TypesInfo, counters: map[string]int{}, heapSort: map[string]Sort{},
-		usedExterns: map[string]bool{}, unknownCalls: map[string]bool{}, mode: mode, calledContracts: map[string]bool{}, freshRefs: map[string]bool{}}
+		usedExterns: map[string]bool{}, unknownCalls: map[string]bool{}, mode: mode, calledContracts: map[string]bool{}, freshRefs: map[string]bool{}, loopDescCount: map[string]int{}}
 	res = &FuncResult{FI: fi, Th: th, Mode: mode}
 	defer func() {
 		if r := recover(); r != nil {
@@ -129,22 +129,24 @@ func genFunc(w *World, fi *FuncInfo, mode string) (res *FuncResult) {
 		return true
 	})
 	if fi.Contract != nil {
-		all := true
-		ord := 0
+		nFor, nDec := 0, 0
 		ast.Inspect(fi.Decl.Body, func(n ast.Node) bool {
-			switch n.(type) {
-			case *ast.ForStmt:
-				ord++
-				lc := fi.Contract.Loops[ord]
-				if lc == nil || lc.Decreases == nil {
-					all = false
-				}
-			case *ast.RangeStmt:
-				ord++
+			if _, ok := n.(*ast.ForStmt); ok {
+				nFor++
 			}
 			return true
 		})
-		if all {
+		for _, lc := range fi.Contract.Loops {
+			if lc.Decreases != nil {
+				nDec++
+			}
+		}
+		for k, lc := range fi.Contract.LoopsByDesc {
+			if lc.Decreases != nil && strings.HasPrefix(k, "for.") {
+				nDec++
+			}
+		}
+		if nDec >= nFor {
 			res.TermNotProved = false
 		}
 	}
